@@ -32,13 +32,19 @@ from icalendar.prop import (vText, vInt, vFloat, vBoolean, vBinary, vUri, vCalAd
 from icalendar.parser import Parameters, Contentline
 
 BERLIN = ZoneInfo("Europe/Berlin")
-CLASSES = {"VEVENT": Event, "VCALENDAR": Calendar, "VTIMEZONE": Timezone, "VTODO": Todo, "X-COMP": None, "VJOURNAL": Journal, "VFREEBUSY": FreeBusy}
+class EventList(Event):
+    canonical_order = ["UID", "SUMMARY", "DTSTART"]
+
+
+CLASSES = {"VEVENT:list-order": EventList, "VEVENT": Event, "VCALENDAR": Calendar, "VTIMEZONE": Timezone, "VTODO": Todo, "X-COMP": None, "VJOURNAL": Journal, "VFREEBUSY": FreeBusy}
 POOLS = {
     "VEVENT": ("summary", "DTSTART", "uid", "x-b", "X-A", "attendee", "Rrule"),
     "VCALENDAR": ("version", "PRODID", "x-wr-calname", "method", "X-A", "calscale", "Name"),
     "VTIMEZONE": ("tzid", "X-LIC-LOCATION", "last-modified", "tzurl", "x-a", "COMMENT", "Zzz"),
     "VTODO": ("summary", "DUE", "uid", "x-b", "X-A", "priority", "Status"),
     "X-COMP": ("b", "A", "x-c", "summary", "DTSTART", "uid", "Z"),
+    # an application's Event subclass whose priority names are held in a LIST: same law, and the list stays as declared
+    "VEVENT:list-order": ("summary", "uid", "x-b", "X-A", "attendee", "Zz", "comment"),
     # names that tie under plausible "smarter" sort keys (numeric-aware, separator-insensitive, prefix-based)
     "VJOURNAL": ("X-R-1", "X-R-01", "X-R-10", "X-R-2", "X-R-001", "X-R_1", "X-R-1A"),
     # distinct names that are equal under str.casefold / compatibility folding (Kelvin sign, capital sharp s, Ohm sign):
@@ -134,6 +140,9 @@ def run_props(case):
         if c.to_ical() != data:
             fails.append(fail("second-serialisation-differs", ("props-perm", cname, perm), data, c.to_ical()))
             break
+    if cname == "VEVENT:list-order" and EventList.canonical_order != ["UID", "SUMMARY", "DTSTART"]:
+        fails.append(fail("serialising-changed-the-declared-priority-names", ("props-perm", cname, tuple(subset)), ["UID", "SUMMARY", "DTSTART"], list(EventList.canonical_order)))
+        EventList.canonical_order = ["UID", "SUMMARY", "DTSTART"]
     return {"n": n, "state": (cname, tuple(sorted(p.upper() for p in subset)), ref[1] if ref else b""), "trans": 3 * n, "traces": n,
             "nnontrivial": n if len(subset) >= 2 else 0, "outcome": "props-ok" if not fails else "FAIL", "fails": fails}
 
